@@ -36,6 +36,9 @@ def call_rules(fn, *args, **kw):
         return rs, 'ok ' + enc_res_list(rs)
     except wire.Garbage:
         return rs, 'err Unsupported'
+    except Exception:
+        # not a list of rule results at all (e.g. a list shared with, and written to by, somebody else)
+        return rs, 'ok <malformed result list: ' + repr(rs)[:200] + '>'
 
 
 def uni_out(px, py, x, y):
